@@ -17,9 +17,11 @@ def driver(scenarios, tag):
     # node is not called at all); longer on the confirming re-runs
     # lat: how long a "slow" relay / node fake stays in flight watching its context (an ordering device: on a
     # tree where the property holds no context is cancelled, whatever the period)
+    # a step (round, fetch, forwarding call, preparation) that has not returned after 2 * wd + 500 ms is recorded by the
+    # driver's watchdog as Hung and the instance is abandoned
     wd, lat = 1500, 8
     if tag.startswith("confirm"):
-        wd, lat = 8000, 40
+        wd, lat = 5000, 40
     return vf.run_driver(PID, PKG, TEST, scenarios, tag, env={"VERIF_WATCHDOG_MS": wd, "VERIF_C11_LAT_MS": lat},
                          timeout=1500)
 
@@ -42,18 +44,19 @@ def sig_of(s):
                 unresolvable_round = True
             if st.get("signfail") or st.get("relayfail") or st.get("nodefail"):
                 failures = True
-        elif st["ev"] == "Fwd" and st.get("relayfail"):
+        elif st["ev"] in ("Fwd", "Fwd2") and st.get("relayfail"):
             failures = True
         elif st["ev"] == "Prep" and any(no[1] != "ok" for no in st.get("nodeout", [])):
             failures = True
     return {"round_with_unresolvable_and_resolvable_validator": unresolvable_round,
-            "has_failures": failures, "kinds": sorted({st["ev"] for st in s["steps"][1:]})}
+            "has_failures": failures, "kinds": sorted({st["ev"] for st in s["steps"][1:]}),
+            "family": s.get("family", "?")}
 
 
 def nontrivial(s, rows):
     # the antecedent: a round in which registrations (or preparations) were really submitted, together
     # with a failure, an unresolvable validator, or an earlier round (reuse / change of content)
-    submits = [r for r in rows if r.get("ev") in ("RelayStart", "NodeStart") and r.get("regs")]
+    submits = [r for r in rows if r.get("ev") in ("RelayStart", "NodeStart", "F2RelayStart") and r.get("regs")]
     preps = [r for r in rows if r.get("ev") == "PrepCall" and r.get("preps")]
     if not submits and not preps:
         return False
@@ -65,63 +68,125 @@ def nontrivial(s, rows):
 def scenarios(tier):
     quick = tier == "quick"
     n = 160 if quick else 2500
-    sim = vf.tlc_scenarios(PID, "Scen_BlockRelay_C11", "Scen_BlockRelay_C11.cfg", num=n, depth=12, timeout=900)[:n]
-    matrix = vf.tlc_scenarios(PID, "Scen_BlockRelay_C11",
-                              "Scen_BlockRelay_C11_matrix.cfg" if quick else "Scen_BlockRelay_C11_matrix_big.cfg",
-                              exhaustive=True, name="scen-matrix", timeout=900)
-    history = vf.tlc_scenarios(PID, "Scen_BlockRelay_C11",
-                               "Scen_BlockRelay_C11_history.cfg" if quick else "Scen_BlockRelay_C11_history_big.cfg",
-                               exhaustive=True, name="scen-history", timeout=900)
+    gen = lambda cfg, name, **kw: vf.tlc_scenarios(PID, "Scen_BlockRelay_C11", cfg, name=name, timeout=900, **kw)
+    # (the five generator runs are independent: run side by side)
+    with ThreadPoolExecutor(max_workers=5) as ex:
+        f_sim = ex.submit(gen, "Scen_BlockRelay_C11.cfg", "scen", num=n, depth=12)
+        f_matrix = ex.submit(gen, "Scen_BlockRelay_C11_matrix.cfg" if quick else "Scen_BlockRelay_C11_matrix_big.cfg",
+                             "scen-matrix", exhaustive=True)
+        f_history = ex.submit(gen, "Scen_BlockRelay_C11_history.cfg" if quick else "Scen_BlockRelay_C11_history_big.cfg",
+                              "scen-history", exhaustive=True)
+        # a round with failures FOLLOWED by further rounds and a forwarding call on the same instance (every failure
+        # combination x latency script x document), and the overlap family (a forwarding call and a fetch inside the
+        # window of a held round)
+        f_after = ex.submit(gen, "Scen_BlockRelay_C11_after.cfg", "scen-after", exhaustive=True)
+        f_window = ex.submit(gen, "Scen_BlockRelay_C11_window.cfg", "scen-window", exhaustive=True)
+        sim, matrix, history = f_sim.result()[:n], f_matrix.result(), f_history.result()
+        after, window = f_after.result(), f_window.result()
     if quick:
         rnd = random.Random(vf.seed())
         rnd.shuffle(matrix)
-        matrix = matrix[:120]
-    hs = matrix + history + sim
-    return [{"sc": i + 1, "steps": h} for i, h in enumerate(hs)]
+        matrix = matrix[:100]
+        # every failing relay set x document once, the rest sampled
+        rnd.shuffle(after)
+        seen, must, rest = set(), [], []
+        for h in after:
+            k = (h[1]["doc"], tuple(h[2]["relayfail"]))
+            (rest if k in seen else must).append(h)
+            seen.add(k)
+        after = must + rest[:36]
+        rnd.shuffle(window)
+        window = window[:60]
+    fams = [("matrix", matrix), ("history", history), ("after", after), ("window", window), ("sim", sim)]
+    out = []
+    for fam, hs in fams:
+        for h in hs:
+            out.append({"sc": len(out) + 1, "family": fam, "steps": h})
+    return out
 
 
 SHARED_CANCEL = [("relays", "FailureIsolated"), ("nodes", "FailureIsolated"), ("prep", "PreparationIsolated"),
                  ("fwd", "ForwardedAll")]
 
 
+def _leaky(r):
+    # "Temporal property RoundReturns was violated" / "Temporal properties RoundReturns and F2Returns were violated"
+    import re
+    return re.search(r"Temporal propert(y|ies) [^\n]*(RoundReturns|F2Returns)[^\n]* w(as|ere) violated", r["out"]) is not None
+
+
 def design_checks(v, tier):
-    # long histories with a coarse fan-out (whole payloads, calls succeed) ...
-    v.add_mc(vf.tlc_exhaustive(PID, "BlockRelay", "MC_BlockRelay_C11.cfg"))
-    # ... and the fan-out in full detail (overlapping calls, partial deliveries, every outcome) on short ones
-    v.add_mc(vf.tlc_exhaustive(PID, "BlockRelay", "MC_BlockRelay_C11_fanout.cfg"))
+    # long histories with a coarse fan-out (whole payloads, calls succeed); the fan-out in full detail (overlapping
+    # calls, partial deliveries, every outcome) on short ones; and histories of three calls on one instance in full
+    # detail, with the forwarding call that overlaps a round (second lane) and a fetch inside a round: every invariant,
+    # and CallsProgress (a call in flight is never stuck, whatever the earlier calls on the instance did)
+    mcs = [("MC_BlockRelay_C11.cfg", 900), ("MC_BlockRelay_C11_fanout.cfg", 900), ("MC_BlockRelay_C11_calls.cfg", 900)]
     if tier == "thorough":
-        v.add_mc(vf.tlc_exhaustive(PID, "BlockRelay", "MC_BlockRelay_C11_fanout3.cfg", timeout=1500))
-        v.add_mc(vf.tlc_exhaustive(PID, "BlockRelay", "MC_BlockRelay_C11_big.cfg", timeout=1500))
-        v.add_mc(vf.tlc_exhaustive(PID, "BlockRelay", "MC_BlockRelay_C11_big2.cfg", timeout=1500))
+        mcs += [("MC_BlockRelay_C11_fanout3.cfg", 1500), ("MC_BlockRelay_C11_big.cfg", 1500), ("MC_BlockRelay_C11_big2.cfg", 1500)]
+    mc_pool = ThreadPoolExecutor(max_workers=len(mcs))
+    mc_futs = [mc_pool.submit(vf.tlc_exhaustive, PID, "BlockRelay", c, workers=4, timeout=t) for c, t in mcs]
     # the model must keep its discriminating power: a fan-out whose calls share one context that the first
-    # failing call cancels (errgroup.WithContext) violates the isolation invariants
-    with ThreadPoolExecutor(max_workers=len(SHARED_CANCEL)) as ex:
-        rs = list(ex.map(lambda a: vf.tlc(PID, "mc-sharedcancel-" + a[0], "BlockRelay",
-                                          "MC_BlockRelay_C11_sharedcancel_%s.cfg" % a[0], workers=2, timeout=600),
-                         SHARED_CANCEL))
-    for (name, inv), r in zip(SHARED_CANCEL, rs):
+    # failing call cancels (errgroup.WithContext) violates the isolation invariants; and - state carried on the
+    # instance between calls - a per-relay submission slot that is not given back after a relay's error makes a
+    # later round get stuck (CallsProgress / RoundReturns), although every single round on a fresh instance is right;
+    # with the slot given back on every path everything holds (thorough).
+    jobs = [("sharedcancel_" + a[0], 600) for a in SHARED_CANCEL] + [("slot_leaky", 900)]
+    if tier == "thorough":
+        # the same with TLC's liveness checking (RoundReturns, F2Returns as temporal properties)
+        jobs += [("live", 1500), ("slot_defer", 1500), ("slot_leaky_live", 1500)]
+    with ThreadPoolExecutor(max_workers=len(jobs)) as ex:
+        rs = dict(zip([j[0] for j in jobs],
+                      ex.map(lambda j: vf.tlc(PID, "mc-" + j[0], "BlockRelay", "MC_BlockRelay_C11_%s.cfg" % j[0],
+                                              workers=2, timeout=j[1]), jobs)))
+    for name, inv in SHARED_CANCEL:
+        r = rs["sharedcancel_" + name]
         if not (r["kind"] == "invariant" and r["violated"] == inv):
             raise vf.Broken("a %s fan-out with a shared context cancelled by the first failure no longer violates %s "
                             "in the model (%s %s)" % (name, inv, r["kind"], r["violated"]))
-    vf.log("model self-check: shared-cancel fan-outs violate FailureIsolated / PreparationIsolated / ForwardedAll (as they must)")
+    r = rs["slot_leaky"]
+    if not (r["kind"] == "invariant" and r["violated"] == "CallsProgressSlotLeaky"):
+        raise vf.Broken("a per-relay slot that is kept after a relay's error no longer gets a later call stuck in the model "
+                        "(%s %s)" % (r["kind"], r["violated"]))
+    if "slot_leaky_live" in rs and not _leaky(rs["slot_leaky_live"]):
+        raise vf.Broken("a per-relay slot that is kept after a relay's error no longer violates RoundReturns in the model")
+    for name in ("live", "slot_defer"):
+        if name in rs:
+            r = rs[name]
+            if r["timed_out"] or not r["ok"]:
+                raise vf.Broken("TLC run of MC_BlockRelay_C11_%s.cfg did not pass (%s %s)\n%s"
+                                % (name, r["kind"], r["violated"], r["out"][-2500:]))
+            v.add_mc(r)
+            vf.log("TLC BlockRelay/MC_BlockRelay_C11_%s.cfg: %d states generated, %d distinct, %.1fs"
+                   % (name, r["generated"], r["distinct"], r["wall_s"]))
+    for f in mc_futs:
+        v.add_mc(f.result())
+    mc_pool.shutdown()
+    vf.log("model self-check: shared-cancel fan-outs violate FailureIsolated / PreparationIsolated / ForwardedAll; a leaked "
+           "per-relay slot violates RoundReturns (as they must)")
 
 
 def run(tier):
     v = vf.Verdict(PID, tier)
     v.assumptions = [
-        "rounds, fetches and REST registrations do not overlap (the registration part is sequential; overlap with fetches is C12)",
+        "one service instance per history; steps run one after the other except inside the window of a held round (the "
+        "healthy relays keep the round's calls in flight while a REST forwarding call and a fetch run to completion); "
+        "two registration rounds never overlap (the service skips a round while one is in progress)",
         "relay and beacon-node fakes honour the call's context like an HTTP client; how the calls of one fan-out overlap is "
         "scripted per round (all at once / failing ones first, healthy ones in flight meanwhile / relay payload in batches)",
         "configuration source, accounts, relays, beacon nodes and scheduler are scripted fakes at the services' interfaces; "
         "the signer is the real standard signer with BLS keys (every 4th scenario in quick, all in thorough) or a hashing one",
     ]
-    design_checks(v, tier)
-    sc = scenarios(tier)
+    with ThreadPoolExecutor(max_workers=2) as ex:      # model checking and scenario generation side by side
+        f_sc = ex.submit(scenarios, tier)
+        design_checks(v, tier)
+        sc = f_sc.result()
     vf.conformance(v, sc, driver, TRACE[0], TRACE[1], sig_of, nontrivial, tlc_timeout=1500, chunk=150)
     v.coverage["rule"] = ("input sequences defined by Scen_BlockRelay_C11.tla: every failure combination of one round per "
-                          "document and every sequence of three configuration changes with a round after each (enumerated), "
-                          "and TLC-simulated histories of fetches / rounds / preparations / REST "
-                          "registrations (seeded), replayed on the real block relay and proposal preparer; non-trivial = "
+                          "document, every sequence of three configuration changes with a round after each, a round with "
+                          "every failure combination followed by further rounds and a forwarding call on the same instance, "
+                          "a forwarding call and a fetch inside the window of a held round (enumerated; quick samples), "
+                          "and TLC-simulated histories of fetches / rounds (also held ones with such windows) / preparations "
+                          "/ REST registrations (seeded), replayed on ONE real block relay and proposal preparer per history; non-trivial = "
                           "something was submitted and the scenario has a failure, an unresolvable validator or a second round; "
                           "distinct by step list")
     return v.finish()
